@@ -30,13 +30,13 @@ ASSUMPTIONS = ['the response series used to recompute the peaks is the library\'
                'calc_asi / calc_vsi are exercised but carry no verdict (not in the statement)']
 MIN_EVALS = {'quick': {'pseudo.sd==max|u|': 1200, 'pseudo.sv==w*sd': 1200, 'pseudo.sa==w^2*sd|PGA(T<6dt)': 1200,
                        'true.peaks==max|series|': 900, 'true.sa==pseudo.sa(xi=0)': 100, 'spectra.finite+nonneg+shape': 2400,
-                       'object.spectra==functions(refined record)': 500, 'object.never-below-raw': 500,
+                       'object.spectra==functions(refined record)': 500, 'object.never-below-raw': 500, 'object.periods==periods given': 400,
                        'uke==sum|d(v^2/2)|': 150, 'input-energy==sum(a*v*dt)': 150, 'input-energy.final>=0': 600,
                        'knife-edge(exact 6*dt)': 150},
              'thorough': {'pseudo.sd==max|u|': 24000, 'pseudo.sv==w*sd': 24000, 'pseudo.sa==w^2*sd|PGA(T<6dt)': 24000,
                           'true.peaks==max|series|': 18000, 'true.sa==pseudo.sa(xi=0)': 2000,
                           'spectra.finite+nonneg+shape': 48000, 'object.spectra==functions(refined record)': 10000,
-                          'object.never-below-raw': 10000, 'uke==sum|d(v^2/2)|': 3000, 'input-energy==sum(a*v*dt)': 3000,
+                          'object.never-below-raw': 10000, 'object.periods==periods given': 8000, 'uke==sum|d(v^2/2)|': 3000, 'input-energy==sum(a*v*dt)': 3000,
                           'input-energy.final>=0': 6000, 'knife-edge(exact 6*dt)': 3000}}
 K2 = 'C03/input-energy-rectangle'
 K3 = 'C03/sa-pga-substitution'
@@ -478,6 +478,30 @@ def run_shard(ctx):
     ctx.note('monitored_calls', dict(attach.CALLS))
 
 
+def _form(rng, per):
+    """the period list in one of the container forms the API accepts"""
+    k = int(rng.integers(3))
+    per = np.asarray(per, dtype=float)
+    return [per, [float(t) for t in per], tuple(float(t) for t in per)][k]
+
+
+def _periods_kept(ctx, sig, per, how):
+    """the object must use exactly the periods the caller gave (ctor keyword, per call, attribute), in any container form"""
+    per = np.asarray(per, dtype=float)
+    try:
+        have = np.asarray(sig.response_times, dtype=float)
+        okk = np.array_equal(have, per)
+        with attach.paused():
+            okk = okk and all(len(np.atleast_1d(q)) == len(per) for q in (sig.s_d, sig.s_v, sig.s_a))
+    except Exception:
+        okk, have = False, None
+    ctx.check(okk, 'object.periods==periods given', lambda: _wit(fn='object', motion=np.asarray(sig.values), dt=sig.dt, periods=per, how=how,
+                                                                stored=have),
+              'AccSignal holds periods %s (n=%s) after they were given as %s via %s'
+              % (None if have is None else have[:4], None if have is None else len(have), per[:4], how))
+    ctx.keyset('object periods (how given, count<=3)').add((how, min(len(per), 3)))
+
+
 def drive_object(ctx, eqsig, rng, cont, dt, per, xi):
     per = np.sort(np.asarray(per, dtype=float))
     if per[0] == 0 and len(per) < 2:
@@ -494,29 +518,38 @@ def drive_object(ctx, eqsig, rng, cont, dt, per, xi):
         pp = per[per > 0]
         pp = pp * (rng.uniform(0.5, 2.4) * dt / pp[0])
         pp = pp[pp <= 300 * dt]      # the 1e-9 relations of this monitor are justified for T/dt <= 300 only (rounding, see C01 K1)
-        sig = eqsig.AccSignal(cont, dt, response_times=pp)
+        sig = eqsig.AccSignal(cont, dt, response_times=_form(rng, pp))
         for r_ in rng.permutation([1, 2, 3, 4, 5, 6, 7, 8]):
             sig.gen_response_spectrum(xi=xi, min_dt_ratio=int(r_))
             ctx.keyset('object (min_dt_ratio, int(dt/(dt/r))==r)').add((int(r_), int(dt / (dt / int(r_))) == int(r_)))
         sig.s_a
+        _periods_kept(ctx, sig, pp, 'ctor-kw')
         return
     if mode == 0:      # explicit response_times at construction, lazy read (default ratio 4, xi .05)
-        sig = eqsig.AccSignal(cont, dt, response_times=per)
+        sig = eqsig.AccSignal(cont, dt, response_times=_form(rng, per))
         sig.gen_response_spectrum()
         sig.s_a
+        _periods_kept(ctx, sig, per, 'ctor-kw')
     elif mode == 1:    # explicit generation with periods / xi / ratio
         sig = eqsig.AccSignal(cont, dt)
-        sig.gen_response_spectrum(response_times=per if rng.random() < 0.5 else list(per), xi=xi, min_dt_ratio=ratio)
+        if rng.random() < 0.7:
+            sig.gen_response_spectrum(response_times=_form(rng, per), xi=xi, min_dt_ratio=ratio)
+            how = 'call-kw'
+        else:
+            sig.gen_response_spectrum(_form(rng, per), xi, ratio)
+            how = 'call-pos'
         sig.s_d
+        _periods_kept(ctx, sig, per, how)
     elif mode == 2:    # history: lazy read, then regenerate with another ratio / xi WITHOUT passing the periods again
-        sig = eqsig.AccSignal(cont, dt, response_times=per)
+        sig = eqsig.AccSignal(cont, dt, response_times=_form(rng, per))
         sig.s_a
         sig.gen_response_spectrum(min_dt_ratio=ratio)
         sig.s_v
         sig.generate_response_spectrum(xi=xi, min_dt_ratio=int(rng.choice([1, 2, 4, 8])))
         sig.s_d
+        _periods_kept(ctx, sig, per, 'ctor-kw')
     else:              # history: generate, change values / periods through the public API, read again
-        sig = eqsig.AccSignal(cont, dt, response_times=per)
+        sig = eqsig.AccSignal(cont, dt, response_times=_form(rng, per))
         sig.gen_response_spectrum(xi=xi, min_dt_ratio=ratio)
         k = int(rng.integers(3))
         if k == 0:
@@ -524,9 +557,11 @@ def drive_object(ctx, eqsig, rng, cont, dt, per, xi):
         elif k == 1:
             sig.add_constant(0.1 * float(np.max(np.abs(np.asarray(sig.values, dtype=float))) + 1))
         else:
-            sig.response_times = per * 1.3
+            per = per * 1.3
+            sig.response_times = _form(rng, per)
         sig.gen_response_spectrum(xi=xi, min_dt_ratio=ratio)
         sig.s_a
+        _periods_kept(ctx, sig, per, 'attribute' if k == 2 else 'ctor-kw')
 
 
 def replay(w):
